@@ -56,7 +56,7 @@ T0 = 0  # abs times are logged in microseconds since the harness' t0
 def stream(container, tracks, versions, base, step, per=1, **kw):
     s = {"container": container, "tracks": tracks, "trackIds": kw.pop("trackIds", []), "versions": versions, "base": base, "step": step,
          "perSeg": per, "ptsOff": [], "frags": 0, "byteRange": False, "noStart": False, "query": "", "absUrl": False, "dateTime": False,
-         "dtJump": 0, "name": "", "lang": "", "default": False, "segDurMs": 20 * per, "ll": False, "canSkip": False, "uriStyle": "", "hintRanges": False}
+         "dtJump": 0, "name": "", "lang": "", "default": False, "segDurMs": 20 * per, "ll": False, "canSkip": False, "uriStyle": "", "hintRanges": False, "ausPerPES": 0, "segDelayMs": 0}
     s.update(kw)
     return s
 
@@ -257,12 +257,18 @@ def time_scenarios(rnd, count):
                 sc = rnd.choice([48000, 44100, 90000, 32000])
                 auds.append(rnd.choice([aac(sc, rnd.choice([48000, 44100])), opus(sc)]))
 
+        # MPEG-TS: several audio access units per PES (the client reports one time per PES; a PES that starts before the origin is
+        # dropped as a whole, so those streams keep their audio at or after the origin)
+        grp = rnd.choice([0, 0, 2, 3]) if container == "ts" else 0
+
         def abase(tr):
             sc = 90000 if container == "ts" else tr["scale"]
             skew = rnd.choice([0, 0, 1, -1, 2]) * step_of(tr, container) + rnd.choice([0, 0, 7, -5])
+            if grp > 1:
+                skew = abs(skew)
             b = lead_t * sc // 90000 + skew
             return max(b, 0)
-        common = dict(frags=rnd.choice([0, 0, 2, 3]) if container == "fmp4" else 0, byteRange=rnd.random() < 0.3,
+        common = dict(frags=rnd.choice([0, 0, 2, 3]) if container == "fmp4" else 0, byteRange=rnd.random() < 0.3, ausPerPES=grp,
                       query=rnd.choice(["", "", "tok=1"]), absUrl=rnd.random() < 0.2)
         dt = rnd.random() < 0.6
         if multi and naud > 0:
@@ -275,8 +281,7 @@ def time_scenarios(rnd, count):
         else:
             tracks = [H264] + auds
             order = list(range(len(tracks)))
-            if container == "fmp4":
-                rnd.shuffle(order)                 # audio may be listed before video; track ids are a permutation too
+            rnd.shuffle(order)                     # audio may be listed before video (init segment / PMT order); fMP4 track ids are permuted too
             tracks = [tracks[i] for i in order]
             ids = list(range(1, len(tracks) + 1))
             if container == "fmp4":
@@ -402,7 +407,7 @@ def life_scenarios(tier):
         for h in vlib.hist_lines(d.out):
             k = (h["fmp4"], tuple(h["close"]), tuple(h["fault"]), h["tracksErr"])
             allowed.setdefault(k, set()).add(h["outcome"])
-    for cfg in ("MC_life_weak_startNoSelect.cfg", "MC_life_weak_errorNoJoin.cfg", "MC_life_weak_fixedCap.cfg"):
+    for cfg in ("MC_life_weak_startNoSelect.cfg", "MC_life_weak_errorNoJoin.cfg", "MC_life_weak_fixedCap.cfg", "MC_life_weak_pushNoCtx.cfg"):
         d = vlib.tlc("ClientLife", cfg, timeout=900, quiet=True)
         if d.kind not in ("invariant", "temporal"):
             raise vlib.Inconclusive("weakened client life cycle %s was not refuted (%s)" % (cfg, d.kind))
@@ -464,7 +469,9 @@ def life_scenarios(tier):
         for c in closes:
             for f in faults:
                 k += 1
-                if tier == "quick" and k % 4 != 0:
+                # without Close every fault position is always run (an error while a rendition waits for the leading stream);
+                # the rest of the product is sampled in the quick tier
+                if tier == "quick" and k % 4 != 0 and c[0] != "none":
                     continue
                 atr = aac(90000 if container == "ts" else 48000, 48000)
                 s0 = stream(container, [H264], [ver(0, 2, True, "VOD")], [900000], [1800], 1)
@@ -480,6 +487,28 @@ def life_scenarios(tier):
                 elif c[0] == "data":
                     kw["closeData"] = c[1]
                 scs.append(scenario("multi", [s0, s1], "life2-%s-%s%d-%s%d" % (container, c[0], c[1], f[0], f[1]), **kw))
+    # an error of one stream while the OTHER one waits for it: the leading stream's first segment fails (late) while the rendition
+    # already waits for the leading time converter, and the rendition's first segment fails while the leading stream streams
+    for container in ("fmp4", "ts"):
+        for victim, slow in ((0, 0), (0, 1), (1, 0), (1, 1)):
+            for fk in ("status", "transport"):
+                atr = aac(90000 if container == "ts" else 48000, 48000)
+                s0 = stream(container, [H264], [ver(0, 3, True, "VOD")], [900000], [1800], 1, segDelayMs=40 if slow == 0 else 0)
+                s1 = stream(container, [atr], [ver(0, 3, True, "VOD")], [900000 if container == "ts" else 480000], [step_of(atr, container)], 1,
+                            name="eng", lang="en", default=True, segDelayMs=40 if slow == 1 else 0)
+                sc = scenario("multi", [s0, s1], "life2x-%s-v%d-s%d-%s" % (container, victim, slow, fk), maxMs=900,
+                              faults=[{"req": -1, "kind": fk, "on": "seg", "s": victim, "nth": 0}])
+                scs.append(sc)
+    # long segments: the hand-off of samples to the track processors (a queue of 100 entries in MPEG-TS, a rendezvous in fMP4) is
+    # blocked while a sample is being paced; Close / an error of another track must still end the client (pushNoCtx in the model)
+    for container in ("ts", "fmp4"):
+        for ntr in (1, 2):
+            for cms in (40, 90):
+                tr = [H264] + ([aac(90000 if container == "ts" else 48000, 48000)] if ntr == 2 else [])
+                st = stream(container, tr, [ver(0, 2, True, "VOD")], [900000] + ([900000 if container == "ts" else 480000] * (ntr - 1)),
+                            [step_of(t, container) for t in tr], 130, frags=(13 if container == "fmp4" else 0))
+                sc = scenario("media", [st], "life-longseg-%s-%d-c%d" % (container, ntr, cms), closeAtMs=cms, maxMs=1500)
+                scs.append(sc)
     # the completion channel of the stream processor (TokenCap in the model): segments with many part tracks (fragments x tracks)
     for ntr, frags in ((4, 3), (2, 7), (3, 5)):
         tr = [H264] + [aac(48000, 48000)] * (ntr - 1)
@@ -612,6 +641,61 @@ def annotate(run):
     def exact_dts(j, ti, n):            # Fraction, in the track's time scale
         return Fraction(dts_of(j, ti, n)) - Fraction(origin * scale(j, ti), ls)
 
+    _su = {}
+
+    def startup_sets(j, ti):
+        return early_sets(j, ti, first_seg[j]) if j in first_seg else (set(), set())
+
+    def early_sets(j, ti, m):
+        """MPEG-TS, segment m of a multi-track playlist: unit indices of track ti that the demuxer emits (certainly, perhaps) before
+        the first leading-track unit of that segment (a PES is emitted when the next PES of its track starts, or at the end)"""
+        if (j, ti, m) in _su:
+            return _su[(j, ti, m)]
+        res = (set(), set())
+        st = streams[j]
+        if st["container"] == "ts" and len(st["tracks"]) > 1 and not st["ll"]:
+            ld = next((i for i, t in enumerate(st["tracks"]) if t["codec"] == "h264"), 0)
+            if ti != ld:
+                p = per(j)
+                items = []
+                for t2 in range(len(st["tracks"])):
+                    for kk in range(p):
+                        nn = m * p + kk
+                        items.append((dts_of(j, t2, nn), 0 if st["tracks"][t2]["codec"] == "h264" else 1, t2, nn))
+                items.sort(key=lambda x: (x[0], x[1]))          # stable: ties keep track order, video first
+                grp = max(1, st.get("ausPerPES", 0))
+                pes = []                                          # (track, [units], start position)
+                i = 0
+                while i < len(items):
+                    t2 = items[i][2]
+                    us = [items[i][3]]
+                    if st["tracks"][t2]["codec"] != "h264":
+                        while len(us) < grp and i + 1 < len(items) and items[i + 1][2] == t2:
+                            i += 1
+                            us.append(items[i][3])
+                    pes.append((t2, us, len(pes)))
+                    i += 1
+                INF = 10 ** 9
+
+                def emit_pos(idx):
+                    for q in range(idx + 1, len(pes)):
+                        if pes[q][0] == pes[idx][0]:
+                            return q
+                    return INF
+                lead_first = next((q for q in range(len(pes)) if pes[q][0] == ld), None)
+                if lead_first is not None:
+                    ev = emit_pos(lead_first)
+                    for q in range(len(pes)):
+                        if pes[q][0] != ti:
+                            continue
+                        e = emit_pos(q)
+                        if e < ev or (e == ev and e != INF):
+                            res[0].update(pes[q][1])
+                        elif e == INF and ev == INF:
+                            res[1].update(pes[q][1])
+        _su[(j, ti, m)] = res
+        return res
+
     exp_tracks = []
     for j, s in enumerate(streams):
         for ti, t in enumerate(s["tracks"]):
@@ -625,7 +709,7 @@ def annotate(run):
         if d.get("ev") != "data":
             continue
         t = d["t"]
-        d.update({"s": -1, "lt": 0, "first": 0, "neg": 0, "dd": 0, "dp": 0, "da": 0, "stale": 0})
+        d.update({"s": -1, "lt": 0, "first": 0, "neg": 0, "dd": 0, "dp": 0, "da": 0, "stale": 0, "startup": 0})
         if not wf or t < 1 or t > len(tstream) or origin is None or d["idok"] != 1:
             if wf:
                 d["dd"] = 1       # a delivery that cannot be attributed to a written unit
@@ -640,20 +724,38 @@ def annotate(run):
         S = scale(j, ti)
         ex = exact_dts(j, ti, n)
         o = off_of(j, ti, n)
+        own_time = d.get("sub", 0) == 0      # later units of a multi-unit callback carry the time of the first one
         err = Fraction(d["dts"]) - ex
-        d["dd"] = 0 if abs(err) < 1 else clip(round(err)) or 1
-        d["dp"] = clip((d["pts"] - d["dts"]) - o)
+        d["dd"] = 0 if (abs(err) < 1 or not own_time) else clip(round(err)) or 1
+        d["dp"] = clip((d["pts"] - d["dts"]) - o) if own_time else 0
         d["neg"] = 1 if ex + o <= -1 else 0
-        # first deliverable unit of the track: the smallest n >= first_n with exact pts >= 0 (a pts in (-1, 0) may go either way)
+        # first deliverable unit of the track: the smallest n >= first_n with exact pts >= 0 (a pts in (-1, 0) may go either way);
+        # MPEG-TS, single playlist: units the demuxer emits before the first leading-track unit are dropped whatever their time
+        # (known finding), units flushed together with it at the end of the segment may go either way
+        dropped, unsure = startup_sets(j, ti)
         k = first_n(j)
-        while exact_dts(j, ti, k) + off_of(j, ti, k) <= -1:
-            k += 1
-        cands = {k}
-        if exact_dts(j, ti, k) + off_of(j, ti, k) < 0:
-            cands.add(k + 1)
+        cands = set()
+        startup = 0
+        while True:
+            pts_k = exact_dts(j, ti, k) + off_of(j, ti, k)
+            if pts_k <= -1:
+                k += 1
+                continue
+            if k in dropped:
+                startup += 1
+                k += 1
+                continue
+            cands.add(k)
+            if pts_k < 0 or k in unsure:
+                k += 1
+                if k > first_n(j) + 64:
+                    break
+                continue
+            break
         d["first"] = 1 if n in cands else 0
+        d["startup"] = startup if (d["first"] == 1 and n == max(cands) and startup > 0) or (n in cands and any(x in dropped for x in range(first_n(j), n))) else 0
         # AbsoluteTime
-        if d["abs"] >= 0 and s0["dateTime"]:
+        if d["abs"] >= 0 and s0["dateTime"] and own_time:
             if j == 0 and not s0["ll"]:
                 m = n // per(0)
                 pdt_us = (m * s0["segDurMs"] + m * s0["dtJump"]) * 1000
@@ -661,8 +763,8 @@ def annotate(run):
                 want = pdt_us + (Fraction(dts_of(j, ti, n), S) - anchor) * 1000000
                 # MPEG-TS: the anchor of a segment is taken when its first leading-track unit is READ; a unit of another track
                 # that is stored before it is still dated with the previous segment's anchor (known finding, DESIGN section 11)
-                if (s0["container"] == "ts" and m > first_seg[0] and ti != lead
-                        and Fraction(dts_of(j, ti, n), S) < Fraction(dts_of(0, lead, m * per(0) + (1 if per(0) > 1 else 0)), ls)):
+                es = early_sets(0, ti, m)
+                if s0["container"] == "ts" and m > first_seg[0] and ti != lead and (n in es[0] or n in es[1]):
                     pm = m - 1
                     pwant = (pm * s0["segDurMs"] + pm * s0["dtJump"]) * 1000 + \
                         (Fraction(dts_of(j, ti, n), S) - Fraction(dts_of(0, lead, pm * per(0)), ls)) * 1000000
@@ -945,28 +1047,40 @@ def cfg_for(pid, strict=False):
 
 
 def stale_anchor_finding(pid, trace, v):
-    """the tolerated deviation is reported as the recorded finding, after TLC (strict constants) confirms it on one run"""
-    run, hit = [], None
-    with open(trace) as f:
-        for ln in f:
-            if '"ev":"reset"' in ln:
-                run = []
-            run.append(ln)
-            if '"ev":"end"' in ln and any('"stale":1' in x for x in run):
-                hit = run
-                break
-    if not hit:
-        return 0
-    os.makedirs(vlib.REPLAYS, exist_ok=True)
-    rp = os.path.join(vlib.REPLAYS, "%s-stale-anchor.ndjson" % pid)
-    with open(rp, "w") as f:
-        f.writelines(hit)
-    r, _ = vlib.validate_trace("ClientRun", cfg_for(pid, strict=True), rp)
-    if r.kind == "invariant":
-        v.violation("AbsoluteTime of an MPEG-TS unit stored before the first leading-track unit of its segment is computed from the "
-                    "previous segment's EXT-X-PROGRAM-DATE-TIME (visible when date-times are not linear in media time)", rp,
-                    signature="ts-early-unit-stale-anchor")
-    return 1
+    """the tolerated deviations are reported as the recorded findings, after TLC (strict constants) confirms each on one run"""
+    found = 0
+    for marker, sig, what, fname in (
+            ('"stale":1', "ts-early-unit-stale-anchor",
+             "AbsoluteTime of an MPEG-TS unit that the demuxer emits before the first leading-track unit of its segment is computed from the "
+             "previous segment's EXT-X-PROGRAM-DATE-TIME (visible when date-times are not linear in media time)", "stale-anchor"),
+            ('"startup":', "ts-startup-units-dropped",
+             "MPEG-TS client: units of non-leading tracks that the demuxer emits before the first leading-track unit of the stream are "
+             "dropped although their time is not before the origin", "startup-drop")):
+        run, hit = [], None
+        with open(trace) as f:
+            for ln in f:
+                if '"ev":"reset"' in ln:
+                    run = []
+                run.append(ln)
+                if '"ev":"end"' in ln:
+                    if marker == '"startup":':
+                        ok = any(re.search(r'"startup":[1-9]', x) for x in run)
+                    else:
+                        ok = any(marker in x for x in run)
+                    if ok:
+                        hit = run
+                        break
+        if not hit:
+            continue
+        os.makedirs(vlib.REPLAYS, exist_ok=True)
+        rp = os.path.join(vlib.REPLAYS, "%s-%s.ndjson" % (pid, fname))
+        with open(rp, "w") as f:
+            f.writelines(hit)
+        r, _ = vlib.validate_trace("ClientRun", cfg_for(pid, strict=True), rp)
+        if r.kind == "invariant":
+            v.violation(what, rp, signature=sig)
+            found += 1
+    return found
 
 
 def why_of(r):
